@@ -122,8 +122,12 @@ def _simp(node, ctx):
             a = node.args[0]
             if ek is not None and isinstance(a, ast.Attribute) and a.attr == "value":
                 return a.value
-            if ek == "int":
-                return a
+            if ek == "int" and isinstance(a, ast.Attribute) and a.attr != "value":
+                root = a
+                while isinstance(root, ast.Attribute):
+                    root = root.value
+                if isinstance(root, ast.Name) and root.id == "self":
+                    return a
         if fn == "len" and len(node.args) == 1:
             a = node.args[0]
             if isinstance(a, ast.Name) and a.id == "self":
